@@ -93,7 +93,7 @@ impl Spec {
                 }
                 m
             }
-            Spec::Emb => Model::new(),
+            Spec::Emb => fixture_model(),
             Spec::Alt { inner, p } => {
                 let iv = inner.view();
                 let mut m = Model::new();
@@ -128,6 +128,17 @@ impl Spec {
             }
         }
     }
+}
+
+/// the embedded fixture folder as a model (files and the directories implied by their paths)
+pub fn fixture_model() -> Model {
+    let mut m = Model::new();
+    for name in Fixture::iter() {
+        if let Some(f) = Fixture::get(&name) {
+            m.put(&format!("/{}", name), Node::File(Arc::new(f.data.to_vec())));
+        }
+    }
+    m
 }
 
 #[derive(Clone, Debug)]
